@@ -265,7 +265,17 @@ func runSeqWorks(c *ev.Ctx, works []seqWork) {
 				c.Max("worst_abs_diff_"+s.T, o.Worst)
 			}
 			if o.Worst > tolPQ {
-				c.Violation(fmt.Sprintf("%s:%s", s.String(), w.Seq.String()),
+				key := fmt.Sprintf("%s:%s", s.String(), w.Seq.String())
+				if (s.T == "block" || s.T == "blockAuto") && s.P > 0 && len(bits)/s.P > 4000000 {
+					// more than 4*10^6 blocks: the library's float64 igamc / accumulation is known to lose
+					// up to ~2e-7 here (KNOWN_FINDINGS.txt); anything grosser is a different violation
+					if o.Worst <= 1e-6 {
+						key = "largeN-block:" + key
+					} else {
+						key = "largeN-block-gross:" + key
+					}
+				}
+				c.Violation(key,
 					fmt.Sprintf("library %v reference %v (|diff| %.3g > 1e-8)", o.Got, o.Want, o.Worst), "seqtest", SeqCase{w.Seq, s})
 				continue
 			}
